@@ -194,6 +194,9 @@ def owner1(ctx, prog, cfg):
     from . import c12 as _c12
 
     _c12.fromarr2(ctx, prog, cfg, "OWNER1")
+    from .. import geom
+
+    geom.remove2(ctx, prog, cfg, "OWNER1")
 
 
 def owner1_from(ctx, prog, cfg, RULE):
